@@ -35,9 +35,14 @@ VARIABLES orig, sheets, l
 tvars == <<orig, sheets, l>>
 
 Aspects == {"cells", "styles", "links", "linkset", "rows", "cols", "merges", "comments", "cf", "dv", "af", "drawing",
-            "ole", "tables", "pivots", "page", "props"}
+            "ole", "tables", "pivots", "page", "props", "names"}
 (* the pairing of cells with external hyperlink targets of a *serialised* sheet is not compared (c11.py, assumptions) *)
 SavedAspects == Aspects \ {"links"}
+
+(* set_sheet_name rewrites the sheet name inside the defined names attached to the sheet: they are compared with
+   the original only while the sheet has its original name (lazy and eager are always compared in full) *)
+VsOrig(s) == IF s.o # 0 /\ s.name = orig[s.o].name THEN Aspects ELSE Aspects \ {"names"}
+DiffOrig(s, base) == {a \in VsOrig(s) : base[a] # orig[s.o].base[a]}
 
 (* ---- facts about the opened file ------------------------------------------------------------ *)
 OrigOf(e) ==
@@ -96,15 +101,14 @@ ObsBad(e, want) ==        \* the set of reasons why the observation does not fit
      THEN {<<"lazy differs from eager", p, {a \in Aspects : e.obs[p].v.base[a] # e.tobs[p].v.base[a]},
              e.obs[p].v.marks, e.tobs[p].v.marks>>} ELSE {}) \cup
     (IF e.obs[p].loaded /\ ~MarksOK(e.obs[p].v, want[p]) THEN {<<"marks", p, e.obs[p].v.marks>>} ELSE {}) \cup
-    (IF e.obs[p].loaded /\ want[p].o # 0 /\ e.obs[p].v.base # orig[want[p].o].base
-     THEN {<<"differs from the eager load of the file", p,
-             {a \in Aspects : e.obs[p].v.base[a] # orig[want[p].o].base[a]}>>} ELSE {})
+    (IF e.obs[p].loaded /\ want[p].o # 0 /\ DiffOrig(want[p], e.obs[p].v.base) # {}
+     THEN {<<"differs from the eager load of the file", p, DiffOrig(want[p], e.obs[p].v.base)>>} ELSE {})
     : p \in DOMAIN want}
 (* the twin must follow the specification, else the history is not one this check can judge *)
 TwinBad(e, want) ==
   \/ e.tw_outcome # "ok" \/ Len(e.tobs) # Len(want)
   \/ \E p \in DOMAIN want : \/ ~e.tobs[p].loaded \/ e.tobs[p].name # want[p].name \/ ~MarksOK(e.tobs[p].v, want[p])
-                            \/ (want[p].o # 0 /\ e.tobs[p].v.base # orig[want[p].o].base)
+                            \/ (want[p].o # 0 /\ DiffOrig(want[p], e.tobs[p].v.base) # {})
 Follow(e, want) == IF Len(e.obs) = Len(want) THEN [p \in DOMAIN want |-> [want[p] EXCEPT !.loaded = e.obs[p].loaded]]
                    ELSE want
 
@@ -155,7 +159,7 @@ SheetReloadBad(S, P, e, p) ==
   ELSE IF RelsAffected(S, P, p) THEN {}                 \* foreign relationships: content not predicted
   ELSE LET asp == IF TabsAffected(S, P, p) THEN SavedAspects \ {"tables"} ELSE SavedAspects
            ref == IF S[p].loaded THEN e.tw.sheets[p].v.base ELSE orig[S[p].o].base
-           cmp == IF S[p].loaded THEN asp ELSE IF TabsAffected(S, P, p) THEN Aspects \ {"tables"} ELSE Aspects
+           cmp == IF S[p].loaded THEN asp ELSE IF TabsAffected(S, P, p) THEN VsOrig(S[p]) \ {"tables"} ELSE VsOrig(S[p])
            bad == {a \in cmp : x.v.base[a] # ref[a]}
        IN (IF bad # {} THEN {<<IF S[p].loaded THEN "materialised sheet differs from the eager save" ELSE
                                "raw sheet differs from the original", p, bad>>} ELSE {}) \cup
